@@ -161,17 +161,19 @@ let mut violations: HashMap<PathBuf, Vec<Violation>> = HashMap::new()
 //@edit rule=ghost before=<<} Ok(violations)>>
             proof { lemma_file_done(verif_ents@, it.index@ as int, v0, violations@, ku_stepf()); }
 //@edit rule=ghost before=<<Ok(violations)>>
-        let ghost ctx = *context;
         proof {
-            lemma_visited_all(ctx, verif_ents@, violations@, ku_stepf());
-            if ku_must_err(ctx) {
-                let (f, j) = choose|f: PathBuf, j: int| context.blocks@.contains_key(f) && 0 <= j < context.blocks@[f].blocks_with_context@.len()
-                    && ku_has(#[trigger] context.blocks@[f].blocks_with_context@[j])
-                    && ku_pattern(context.blocks@[f].blocks_with_context@[j]).len() > 0
-                    && regex::compile_spec(ku_pattern(context.blocks@[f].blocks_with_context@[j])) is None
-                    && lines_of(content_of(context.blocks@[f].blocks_with_context@[j].block, context.blocks@[f].file_content@)).len() > 0;
-                lemma_acc_step(ku_stepf()(f, context.blocks@[f]), context.blocks@[f].blocks_with_context@.len() as int, map_get_or_empty(violations@, f), j);
-                assert(false); // [VO2.proof.must_err_block_cannot_have_stepped]
+            assert(outer_ok(*context, violations@, ku_stepf())) by {
+                lemma_visited_all(*context, verif_ents@, violations@, ku_stepf());
+            }
+            assert(!ku_must_err(*context)) by { // [VO2.proof.must_err_block_cannot_have_stepped]
+                if ku_must_err(*context) {
+                    let (f, j) = choose|f: PathBuf, j: int| context.blocks@.contains_key(f) && 0 <= j < context.blocks@[f].blocks_with_context@.len()
+                        && ku_has(#[trigger] context.blocks@[f].blocks_with_context@[j])
+                        && ku_pattern(context.blocks@[f].blocks_with_context@[j]).len() > 0
+                        && regex::compile_spec(ku_pattern(context.blocks@[f].blocks_with_context@[j])) is None
+                        && lines_of(content_of(context.blocks@[f].blocks_with_context@[j].block, context.blocks@[f].file_content@)).len() > 0;
+                    lemma_acc_step(ku_stepf()(f, context.blocks@[f]), context.blocks@[f].blocks_with_context@.len() as int, map_get_or_empty(violations@, f), j);
+                }
             }
         }
 //@end
